@@ -110,6 +110,13 @@ CHECKS = {
    text="Each transformation of the property is instantiated on every reduced configuration and original and transformed problems are solved with the real library; the solution on the higher-dimensional grid must be constant along the redundant axis and equal to the reduced solution including ghost layers, permuted/mirrored/shifted problems must give permuted/mirrored/shifted solutions, to 64*eps*cond. Exhaustive over the transformation and configuration alphabets.",
    note="Reduced shapes (3,) and (2,3); N_red<=3; spherical 3-D -> 1-D not demanded; shifts with upwind/TVD are a recorded finding (periodic seam).",
    ref="DESIGN.md 4/C08"),
+
+ "C02": dict(
+   engine="B-cfgsolve",
+   technique="configuration lattice (class x radial origin x grading x BC kind vector within a deviation bound x term set x solution family) enumerated completely; each configuration is a 3-level refinement ladder solved by the real library against a sympy-generated manufactured solution; observed order as oracle",
+   text="Every configuration of the lattice is solved on a ladder of three (thorough: four) resolutions with sources and Dirichlet/Neumann/Robin data generated symbolically from the continuous operator of the class's coordinate system; the observed order must be >= 1.3 (max norm) / 1.5 (L2) for second-order term sets (diffusion, +central, +linear source, +transient with dt ~ h^2) and first-order consistent for upwind. A wrong metric factor, sign or coefficient placement yields an error plateau (order ~ 0). Exhaustive over the configuration lattice; the limit statement itself is only decided in this bounded form.",
+   note="Bounded form of a limit statement: 2 solution families, 3-4 resolutions; trusted base: sympy calculus and the transcription of div/grad in curvilinear coordinates (cross-checked against the Cartesian Laplacian in the generator); thresholds frozen after one calibration; upwind ladders inside the first-order envelope 0.1*h*max|phi| are accepted.",
+   ref="DESIGN.md 4/C02"),
 }
 NOT_YET = {}
 
